@@ -79,12 +79,17 @@ func runC08Child(r *vhlib.Run) {
 					res.Class = vhlib.ErrClass(err)
 					return
 				}
+				xr.Read(buf[:0]) // a call with an empty buffer returns like any other
 				for _, off := range []int64{1 << 40, 0, 7} {
 					xr.Seek(off, io.SeekStart)
+					xr.Read(buf[:0])
 					xr.Read(buf[:16])
 				}
 				xr.Seek(0, io.SeekStart)
 				for {
+					if res.Out%3 == 1 {
+						xr.Read(nil)
+					}
 					n, err := xr.Read(buf)
 					res.Out += int64(n)
 					if err != nil {
@@ -98,7 +103,11 @@ func runC08Child(r *vhlib.Run) {
 				}
 			}
 			z := cs[f[1]].New(bytes.NewReader(data))
+			z.Read(buf[:0])
 			for {
+				if res.Out%3 == 1 {
+					z.Read(nil)
+				}
 				n, err := z.Read(buf)
 				res.Out += int64(n)
 				if err != nil {
